@@ -419,7 +419,7 @@ const nullTime = math.MinInt64
 
 // errRunaway: a series produced far more rows than there are windows intersecting the bounds (readTables aborts the
 // request instead of waiting for a reader that does not terminate).
-var errRunaway = errors.New("runaway: a series produced more than 4x+16 as many rows/tables as there are windows intersecting the bounds; aborted (the reader does not terminate?)")
+var errRunaway = errors.New("runaway: a series produced more than 4x+16 as many rows/tables/buffers as there are windows intersecting the bounds; aborted (the reader does not terminate?)")
 
 func colValue(cr flux.ColReader, j, i int) (v any, null bool) {
 	switch cr.Cols()[j].Type {
@@ -491,8 +491,11 @@ func readTables(ti query.TableIterator, t0 int64, maxPerSeries int) (map[string]
 		cols := tbl.Cols()
 		si, ei := execute.ColIdx(execute.DefaultStartColLabel, cols), execute.ColIdx(execute.DefaultStopColLabel, cols)
 		tci, vi := execute.ColIdx(execute.DefaultTimeColLabel, cols), execute.ColIdx(execute.DefaultValueColLabel, cols)
-		n := 0
+		n, nbuf := 0, 0
 		err := tbl.Do(func(cr flux.ColReader) error {
+			if nbuf++; nbuf > maxPerSeries {
+				return errRunaway // also catches an endless stream of EMPTY buffers
+			}
 			for i := 0; i < cr.Len(); i++ {
 				n++
 				if len(out[series]) > maxPerSeries {
@@ -909,23 +912,22 @@ func fmtRecs(rs []rec) string {
 // ---------------------------------------------------------------------------------------------------------
 // execution
 
+// sigOf: violated clause / API / table implementation / the request features that select code paths. The buffer size
+// and the concrete window are not part of the class (the summary of the first case names them).
 func sigOf(r Req, M int, clause string) string {
-	tc, blk := "none", "shipped"
+	if clause == "runaway" {
+		// non-termination does not depend on the window or the time column: one class per table implementation
+		return vlib.JoinSig("ReadWindowAggregate", clause, impl(r), fmt.Sprintf("createEmpty=%v", r.CE))
+	}
+	tc := "none"
 	if r.TC != "" {
 		tc = "set"
 	}
-	if M != shippedM {
-		blk = "small"
-	}
-	every := "ns"
+	parts := []string{"ReadWindowAggregate", clause, impl(r), "timeColumn=" + tc, fmt.Sprintf("createEmpty=%v", r.CE)}
 	if r.Every == 0 {
-		every = "inf"
+		parts = append(parts, "every=inf")
 	}
-	if clause == "runaway" {
-		// non-termination does not depend on the window, the time column or the buffer size: one class per table implementation
-		return vlib.JoinSig("ReadWindowAggregate", clause, impl(r), fmt.Sprintf("createEmpty=%v", r.CE))
-	}
-	return vlib.JoinSig("ReadWindowAggregate", clause, impl(r), "timeColumn="+tc, fmt.Sprintf("createEmpty=%v", r.CE), "every="+every, "blocksize="+blk)
+	return vlib.JoinSig(parts...)
 }
 
 type result struct {
@@ -934,7 +936,13 @@ type result struct {
 	raws     map[string][]raw
 	err      error
 	panicked string
+	hung     bool
 }
+
+// hangTimeout: a request of the family takes milliseconds. A reader that spins without handing out rows cannot be
+// seen by readTables, so the request runs under a watchdog; after a hang the worker stops (the spinning goroutine
+// cannot be killed and still owns the fixture).
+const hangTimeout = 45 * time.Second
 
 func (h *harness) exec(c *vlib.Ctx, M int, r Req) (res result) {
 	res.raws, res.err = h.filter(c, r.A, r.B, r.Field)
@@ -944,12 +952,24 @@ func (h *harness) exec(c *vlib.Ctx, M int, r Req) (res result) {
 	}
 	old := reads.MaxPointsPerBlock
 	reads.MaxPointsPerBlock = M
-	defer func() { reads.MaxPointsPerBlock = old }()
-	p, d := vlib.Guard(func() { res.got, res.ntables, res.err = h.window(r) })
-	if p {
-		res.panicked = d
+	ch := make(chan result, 1)
+	go func() {
+		var rr result
+		p, d := vlib.Guard(func() { rr.got, rr.ntables, rr.err = h.window(r) })
+		if p {
+			rr.panicked = d
+		}
+		ch <- rr
+	}()
+	select {
+	case rr := <-ch:
+		reads.MaxPointsPerBlock = old
+		rr.raws = res.raws
+		return rr
+	case <-time.After(hangTimeout):
+		res.hung = true
+		return
 	}
-	return
 }
 
 func bucketN(n int) string {
@@ -966,16 +986,21 @@ func bucketN(n int) string {
 	return ">1000"
 }
 
-func (h *harness) runCase(c *vlib.Ctx, M int, r Req) {
+// runCase runs and judges one request; it returns false when the worker must stop (a request hung).
+func (h *harness) runCase(c *vlib.Ctx, M int, r Req) bool {
 	res := h.exec(c, M, r)
 	n := int64(len(h.sers))
 	c.Eval(n)
 	switch {
+	case res.hung:
+		c.Violation(vlib.JoinSig("ReadWindowAggregate", "hang", impl(r), fmt.Sprintf("createEmpty=%v", r.CE)), fmt.Sprintf("%s on dataset %+v (MaxPointsPerBlock=%d) did not return within %v", r, h.ds, M, hangTimeout), Case{h.ds, M, r, ""})
+		c.OutcomeN("hang", n)
+		return false
 	case res.panicked != "":
 		fr := res.panicked[strings.LastIndex(res.panicked, "@ ")+2:]
 		c.Violation(sigOf(r, M, "panic/"+fr), fmt.Sprintf("%s on dataset %+v (MaxPointsPerBlock=%d): %s", r, h.ds, M, res.panicked), Case{h.ds, M, r, ""})
 		c.OutcomeN("panic", n)
-		return
+		return true
 	case res.err != nil:
 		cl := "error"
 		if errors.Is(res.err, errRunaway) {
@@ -983,7 +1008,7 @@ func (h *harness) runCase(c *vlib.Ctx, M int, r Req) {
 		}
 		c.Violation(sigOf(r, M, cl), fmt.Sprintf("%s on dataset %+v (MaxPointsPerBlock=%d) returned error: %v", r, h.ds, M, res.err), Case{h.ds, M, r, ""})
 		c.OutcomeN(cl, n)
-		return
+		return true
 	}
 	outc := map[string]int64{}
 	var nontrivial int64
@@ -1020,6 +1045,7 @@ func (h *harness) runCase(c *vlib.Ctx, M int, r Req) {
 	for k, v := range outc {
 		c.OutcomeN(k, v)
 	}
+	return true
 }
 
 func TestCheck(t *testing.T) {
@@ -1077,7 +1103,10 @@ func TestCheck(t *testing.T) {
 								return
 							}
 						}
-						h.runCase(c, M, r)
+						if !h.runCase(c, M, r) {
+							c.Cap("a request did not return (reported as class hang); this shard stopped there because the spinning reader cannot be cancelled")
+							return // the fixture is left to the spinning goroutine; the scratch directory is removed by vf
+						}
 					}
 				}
 				if h != nil {
@@ -1096,8 +1125,16 @@ func TestCheck(t *testing.T) {
 			if err != nil {
 				return false, "fixture: " + err.Error()
 			}
-			defer h.close()
+			defer func() {
+				if h != nil {
+					h.close()
+				}
+			}()
 			res := h.exec(c, cs.M, cs.Req)
+			if res.hung {
+				h = nil // never close a fixture a spinning reader still uses
+				return true, fmt.Sprintf("request: %s\ndataset: %+v, MaxPointsPerBlock=%d, table implementation %s\nHANG: ReadWindowAggregate did not return within %v\n", cs.Req, cs.DS, cs.M, impl(cs.Req), hangTimeout)
+			}
 			var sb strings.Builder
 			fmt.Fprintf(&sb, "request: %s\ndataset: %+v (T0 = window-alignment origin + %d mod 6), MaxPointsPerBlock=%d, table implementation %s\n", cs.Req, cs.DS, h.t0%6, cs.M, impl(cs.Req))
 			switch {
